@@ -124,8 +124,10 @@ def run_harness(h, workdir, timeout=60, jobs=16, only=None, pool=None):
     own = pool is None
     if own:
         pool = concurrent.futures.ThreadPoolExecutor(max_workers=jobs)
-    singles = [o for o in obs if o.kind not in BATCH_KINDS]
-    batchable = [o for o in obs if o.kind in BATCH_KINDS]
+    allk = os.environ.get('STV_BATCH_ALL', '1') == '1'
+    hard = ('reach', 'local', 'lemma')
+    singles = [o for o in obs if (o.kind not in BATCH_KINDS and not allk) or o.kind in hard]
+    batchable = [o for o in obs if o not in singles]
     futs = [pool.submit(lambda o=o: [run_one(cfile, o, timeout)]) for o in singles]
     ranges = [o for o in batchable if o.kind == 'int_range']
     batchable = [o for o in batchable if o.kind != 'int_range']
